@@ -845,7 +845,7 @@ def c09(r):
               "order of the model (%s) is forced on real goroutines through the blocking gate hook and the hook trace is folded through the "
               "protocol by Trace_Cache; every call sequence of length <= %d over an alphabet of 10 calls (3 years incl. a leap-11 year, month "
               "walking across years, two invalid calls that panic and are recovered) is executed in one process and each result compared with "
-              "its reference; a -race build runs 16 goroutines of mixed calls plus rounds of 8 goroutines reading one fresh shared object, "
+              "its reference; each of 16 calls is also made as the very first library call of a fresh process and compared with itself warm; a -race build runs 16 goroutines of mixed calls plus rounds of 8 goroutines reading one fresh shared object, "
               "race reports become events that no action accepts. Every public non-setter method of 21 object types is called twice on sample "
               "objects with a digest of all accessors of the receiver before and after (a call must not change its receiver and must repeat its "
               "result); one letter of the history alphabet writes garbage through every setter of every object the accessors hand out. Session.tla specifies the whole mutable state a client can see (date objects with "
@@ -877,6 +877,9 @@ def c09(r):
     r.validate("Trace_Cache", ch_s)
     ch_h = r.drive("c09hist", args={"len": 5 if thorough else 4}, maxlines=4000)
     r.validate("Trace_Cache", ch_h)
+    # cold start: each of 16 calls as the very first library call of its own process, then again warm
+    ch_c = r.drive("c09cold", maxlines=0, shards=16)
+    r.validate("Trace_Cache", ch_c)
     # totality of the computation under the lock
     ch_t = r.drive("c09total", maxlines=0, shards=8)
     r.validate("Trace_Cache", ch_t)
@@ -913,13 +916,27 @@ def c09(r):
     # purity: non-setter calls leave their receiver unchanged and repeat their result
     ch_p = r.drive("c09pure", args={"moments": 200 if thorough else 14}, maxlines=0)
     r.validate("Trace_Cache", ch_p)
+    ALONE = "alone vs after the others"
     def pure_recv(e):
-        e["rows"][1][4] = "0" * 16
-        return True
+        for row in e["rows"]:
+            if row[2] != ALONE:
+                row[4] = "0" * 16
+                return True
+        return False
     def pure_res(e):
-        e["rows"][-1][6] = "0" * 12
-        return True
-    r.negctl("Trace_Cache", ch_p[:2], {"C09Pure": [(pure_recv, "C09.pure.call-changes-its-receiver"), (pure_res, "C09.pure.same-call-different-result")]}, per_kind=1)
+        for row in reversed(e["rows"]):
+            if row[2] != ALONE:
+                row[6] = "0" * 12
+                return True
+        return False
+    def pure_alone(e):
+        for row in e["rows"]:
+            if row[2] == ALONE:
+                row[4] = "0" * 12
+                return True
+        return False
+    r.negctl("Trace_Cache", ch_p[:2], {"C09Pure": [(pure_recv, "C09.pure.call-changes-its-receiver"), (pure_res, "C09.pure.same-call-different-result"),
+                                                    (pure_alone, "C09.pure.result-depends-on-earlier-accessors")]}, per_kind=1)
     # the library as one state machine (Session.tla): TLC enumerates client sessions, real objects replay them
     r.mc("MC_Session", "MC_Session_5" if thorough else "MC_Session", timeout=900)
     sessions = r.export_edges("MC_Session", "MBT_Session")
